@@ -45,6 +45,8 @@ type Cell struct {
 	// finding can only show after a later restart; within the same lifetime reappearance is a plain violation.
 	DelEpoch         int
 	AfterRestartOnly bool
+	// KFFromEpoch: the finding named by KF can only make the cell disappear from this process lifetime on.
+	KFFromEpoch int
 	// KFCands are values that only the finding KFCandTag can produce at this timestamp.
 	KFCands   []Sample
 	KFCandTag string
@@ -102,6 +104,9 @@ const TagMixedBlock = "restart-drops-head-samples-below-merged-ooo-block-maxt"
 type Model struct {
 	// Epoch counts restarts (process lifetimes).
 	Epoch int
+	// OpenCutoff is the WAL replay cut-off (highest MaxTime of the in-order blocks) the current process
+	// lifetime started with: deleted samples below it cannot have come back through the WAL or head chunk files.
+	OpenCutoff int64
 	// KFRun: this run exercises listed known findings; cells they can affect are tagged instead of judged.
 	KFRun  bool
 	Series []*Series
@@ -120,7 +125,7 @@ func New(lsets []labels.Labels) *Model {
 
 // Clone deep-copies the model (values are immutable and shared).
 func (m *Model) Clone() *Model {
-	n := &Model{Deletes: m.Deletes, KFRun: m.KFRun, Epoch: m.Epoch}
+	n := &Model{Deletes: m.Deletes, KFRun: m.KFRun, Epoch: m.Epoch, OpenCutoff: m.OpenCutoff}
 	for _, s := range m.Series {
 		ns := &Series{Idx: s.Idx, Labels: s.Labels, Cells: make(map[int64]*Cell, len(s.Cells)), InHead: s.InHead, OOOOpen: map[int64]bool{}}
 		ns.HeadDeleted = append([][2]int64(nil), s.HeadDeleted...)
@@ -301,6 +306,9 @@ func (m *Model) Commit(a *App) CommitEffect {
 			if len(c.Cands) == 1 && a.Covered != nil && a.Covered(p.Series, v.T) {
 				c.KF = TagTombHides
 			}
+			if len(c.Cands) == 1 && c.KF == "" && s.inHeadDeleted(v.T) {
+				c.KF, c.KFFromEpoch = TagTombHides, m.Epoch+1
+			}
 			if s.MultiRef && len(c.Cands) == 1 && c.KF == "" {
 				c.KF = TagOOODupRef
 			}
@@ -325,6 +333,9 @@ func (m *Model) Commit(a *App) CommitEffect {
 			}
 			if len(c.Cands) == 1 && a.Covered != nil && a.Covered(p.Series, v.T) {
 				c.KF = TagTombHides
+			}
+			if len(c.Cands) == 1 && c.KF == "" && s.inHeadDeleted(v.T) {
+				c.KF, c.KFFromEpoch = TagTombHides, m.Epoch+1
 			}
 			if len(c.Cands) == 1 && c.KF == "" && s.MaxOOOHeadT() > v.T {
 				c.KF = TagReplayOrder
@@ -434,6 +445,9 @@ func (m *Model) TagOOOHeadCells(tag string) {
 // TagTombHides is the known finding: a head tombstone hides samples appended into its range after the deletion.
 const TagTombHides = "head-tombstone-hides-later-append"
 
+// InHeadDeleted reports whether t lies in a range deleted earlier while the series was in the head.
+func (s *Series) InHeadDeleted(t int64) bool { return s.inHeadDeleted(t) }
+
 func (s *Series) inHeadDeleted(t int64) bool {
 	for _, iv := range s.HeadDeleted {
 		if t >= iv[0] && t <= iv[1] {
@@ -468,6 +482,15 @@ func (m *Model) Delete(mint, maxt int64, match func(labels.Labels) bool, headMin
 	for _, s := range m.Series {
 		if !match(s.Labels) {
 			continue
+		}
+		if s.Last != nil && s.InHead && mint <= s.Last.T {
+			// the head tombstone (clamped to the series' newest in-order sample) is also logged to the WAL and
+			// comes back at the next replay even after head truncation dropped it from memory
+			hi := maxt
+			if s.Last.T < hi {
+				hi = s.Last.T
+			}
+			s.HeadDeleted = append(s.HeadDeleted, [2]int64{mint, hi})
 		}
 		for t, c := range s.Cells {
 			if t >= mint && t <= maxt {
@@ -549,7 +572,7 @@ func (m *Model) NumSamples() int {
 // Compare checks a returned series against the bounds lower <= got <= upper:
 // every non-optional cell of lower in range must be present; every returned sample must be a candidate of upper;
 // timestamps strictly increasing. For a strict check pass lower == upper.
-func Compare(lower, upper *Series, got []Sample, mint, maxt int64, minRequiredT int64, epoch int) []string {
+func Compare(lower, upper *Series, got []Sample, mint, maxt int64, minRequiredT int64, epoch int, openCutoff int64) []string {
 	var errs []string
 	prev := int64(math.MinInt64)
 	seen := map[int64]bool{}
@@ -583,7 +606,7 @@ func Compare(lower, upper *Series, got []Sample, mint, maxt int64, minRequiredT 
 			continue
 		}
 		if c.Deleted {
-			if c.AfterRestartOnly && c.DelEpoch == epoch {
+			if c.AfterRestartOnly && (c.DelEpoch == epoch || g.T < openCutoff) {
 				errs = append(errs, fmt.Sprintf("unexpected sample %s: it was deleted", g))
 			} else {
 				errs = append(errs, fmt.Sprintf("KNOWN[%s] deleted sample %s still returned", c.KF, g))
@@ -594,7 +617,7 @@ func Compare(lower, upper *Series, got []Sample, mint, maxt int64, minRequiredT 
 		if t < mint || t > maxt || c.Optional || c.Deleted || seen[t] || t < minRequiredT {
 			continue
 		}
-		if c.KF != "" {
+		if c.KF != "" && epoch >= c.KFFromEpoch {
 			errs = append(errs, fmt.Sprintf("KNOWN[%s] missing sample at t=%d (stored %v)", c.KF, t, c.Cands))
 			continue
 		}
